@@ -24,6 +24,8 @@ MAP = [  # (commit, property, hunt dir, note)
     ("dddade8", "C15", "../hunt3/C15/1", ""), ("363eb96", "C15", "../hunt3/C15/2", ""), ("6e74526", "C13", "../hunt3/C13/4", ""),
     ("67cc682", "C12", "../hunt3/C12/1", "demo needs `--features jsonld` in crate sophia"),
     ("1922a30", "C14", "../hunt3/C14/1", ""),
+    ("99d9ba8", "C20", "../hunt3/C20/1", ""), ("5c970bc", "C05", "../hunt3/C06/1", "the demonstration is probabilistic (HashSet order): it runs the canonicalisation several times"),
+    ("f0e1e9d", "C08", "../hunt3/C02/1", ""), ("c8771cf", "C08", "../hunt3/C02/3", ""),
 ]
 
 def sh(cmd, cwd=WT):
